@@ -557,14 +557,16 @@ class Consequent:
                     f"expected a variable in '{proposition}', but found none in consequent"
                 )
             if proposition.variable.enabled:
+                # the hedges of a conclusion modify only that conclusion's degree
+                degree = activation_degree
                 for hedge in reversed(proposition.hedges):
-                    activation_degree = hedge.hedge(activation_degree)
+                    degree = hedge.hedge(degree)
 
                 if not proposition.term:
                     raise ValueError(
                         f"expected a term in proposition '{proposition}', but found none"
                     )
-                activated_term = Activated(proposition.term, activation_degree, implication)
+                activated_term = Activated(proposition.term, degree, implication)
                 if isinstance(proposition.variable, OutputVariable):
                     proposition.variable.fuzzy.terms.append(activated_term)
                 else:
